@@ -29,6 +29,7 @@ import (
 	"reflect"
 	"sort"
 	"strings"
+	"time"
 	"testing"
 
 	"github.com/tinode/chat/server/auth"
@@ -40,6 +41,7 @@ import (
 )
 
 const c19wArm = "c19w-arm"       // marker (tick op): from here on the namespace configuration is in force
+const c19wAccLogin = "c19w-acc-login" // marker (raw op): {acc user=self scheme=basic secret=newlogin:password}; X[0] is the new login
 const c19wAccTags = "c19w-acc"   // marker (raw op): {acc user=self tags=X}
 const c19wNewGrp = "c19w-newgrp" // marker (raw op): {sub new set.tags=X}
 const c19wCred = "c19w-cred"     // marker (raw op): {set me cred={meth=email resp=...}} confirming the pending e-mail
@@ -384,6 +386,11 @@ func c19wGen(rt *rapid.T) c19wProg {
 		s := gInt(rt, 0, len(p.Sess)-1, "s")
 		u := p.Sess[s]
 		switch x := gInt(rt, 0, 99, "opk"); {
+		case p.NS.Login && u >= 0 && u < len(c19wLogins) && x < 40 && gPct(rt, 6):
+			// the account changes its login (or only the password): the authenticator replaces the tag it maintains
+			nl := gPick(rt, []string{fmt.Sprintf("fresh%da", u), fmt.Sprintf("fresh%db", u), c19wLogins[u], c19wLogins[(u+1)%len(c19wLogins)], ""}, "newlogin")
+			raw := wJSON(map[string]any{"acc": map[string]any{"id": "$id", "user": "$self", "scheme": "basic", "secret": "$b64:" + nl + ":password" + fmt.Sprint(i)}})
+			p.Ops = append(p.Ops, wOp{K: "raw", S: s, A: raw, B: c19wAccLogin, X: []string{nl}}, wOp{K: "get", S: s, T: "me", A: "tags"})
 		case x < 28: // search
 			q := query(u)
 			if gPct(rt, 78) {
@@ -592,6 +599,8 @@ type c19wObs struct {
 	hiddenFromUser       int
 	classes              map[string]bool
 	preSubs              map[int]map[string]bool // session slot -> routable names of the topics it was attached to before the step
+	logins               map[int]string          // user -> login on record with the basic authenticator
+	staleMe              map[int]bool            // user -> the loaded 'me' topic has not heard of a login change (listed finding)
 }
 
 func (o *c19wObs) class(c string) { o.classes[c] = true }
@@ -641,6 +650,16 @@ func (o *c19wObs) doSetup(w *wWorld) {
 			panic("c19w: seeding tags: " + err.Error())
 		}
 		o.users = append(o.users, &c19wObj{tags: c19wSet(tags), state: c19wOK})
+		if o.p.NS.Login && i < len(c19wLogins) {
+			// the login the seeded tag stands for (the password hash is never used: sessions hold tokens)
+			if o.logins == nil {
+				o.logins = map[int]string{}
+			}
+			if err := store.Users.AddAuthRecord(w.users[i].uid, auth.LevelAuth, "basic", c19wLogins[i], []byte("$2a$10$notahashnotahashnotahashnotahashnotahashnotahashnotaha"), time.Time{}); err != nil {
+				panic("c19w: seeding logins: " + err.Error())
+			}
+			o.logins[i] = c19wLogins[i]
+		}
 		if o.p.NS.Cred && o.p.NS.Email > 0 {
 			for _, c := range []types.Credential{
 				{User: w.users[i].uid.String(), Method: "email", Value: fmt.Sprintf("u%d@x.co", i), Done: true},
@@ -877,6 +896,11 @@ func (o *c19wObs) After(w *wWorld, st *wStep) *kit.Viol {
 
 func (o *c19wObs) after(w *wWorld, st *wStep) *kit.Viol {
 	snap := mem.A.Snapshot()
+	for i := range o.staleMe {
+		if lt := w.liveTopics()[w.users[i].uid.UserId()]; lt == nil || !lt.Loaded {
+			delete(o.staleMe, i) // 'me' was unloaded: the next load reads the store
+		}
+	}
 	// groups created through the engine's bookkeeping
 	if st.NewGrp >= 0 && st.User >= 0 {
 		o.groups = append(o.groups, &c19wObj{tags: map[string]bool{}, state: c19wOK, owner: st.User, name: w.groups[st.NewGrp], chn: w.isChan[st.NewGrp]})
@@ -897,6 +921,12 @@ func (o *c19wObs) after(w *wWorld, st *wStep) *kit.Viol {
 			u := o.users[st.User]
 			tags, _, _, ok := c19wUserRow(snap, w.users[st.User].uid)
 			if !ok {
+				break
+			}
+			if o.staleMe[st.User] {
+				// the gate compares the request with tags the topic cached before a login change: not judged further
+				o.class("set-tags-after-login-change(not judged)")
+				u.tags = c19wSet(tags)
 				break
 			}
 			v, next := o.judgeTags(fmt.Sprintf("account tags of user %d", st.User), st, u.tags, requested, attached && actorOK, code, c19wSet(tags))
@@ -924,6 +954,46 @@ func (o *c19wObs) after(w *wWorld, st *wStep) *kit.Viol {
 			g.tags = next
 			if v = o.rep(v); v != nil {
 				return v
+			}
+		}
+	case st.Op.K == "raw" && st.Op.B == c19wAccLogin:
+		// the authenticator maintains exactly one tag per account in its namespace: the login on record
+		if st.Login >= 0 && len(st.Op.X) == 1 {
+			u := o.users[st.Login]
+			if tags, _, _, ok := c19wUserRow(snap, w.users[st.Login].uid); ok {
+				stored := c19wSet(tags)
+				want := map[string]bool{}
+				for tg := range u.tags {
+					want[tg] = true
+				}
+				old, nl := o.logins[st.Login], st.Op.X[0]
+				if nl == "" {
+					nl = old
+				}
+				if acked {
+					delete(want, "basic:"+old)
+					want["basic:"+nl] = true
+					o.class("login-changed:" + map[bool]string{true: "password-only", false: "new-login"}[nl == old])
+				} else {
+					o.class("login-change-refused")
+				}
+				if !c19wSameSet(stored, want) {
+					sig := "login-change-tags"
+					if !acked {
+						sig = "refused-update-changed-tags:login"
+					}
+					return o.rep(kit.V(sig, "{acc} %s (login on record %q) answered %d: tags of user %d went from %q to %q, expected %q", st.Req, old, code, st.Login, c19wList(u.tags), c19wList(stored), c19wList(want)))
+				}
+				if acked {
+					o.logins[st.Login] = nl
+					if lt := w.liveTopics()[w.users[st.Login].uid.UserId()]; lt != nil && lt.Loaded && !c19wSameSet(stored, u.tags) {
+						if o.staleMe == nil {
+							o.staleMe = map[int]bool{}
+						}
+						o.staleMe[st.Login] = true
+					}
+				}
+				u.tags = stored
 			}
 		}
 	case st.Op.K == "raw" && st.Op.B == c19wAccTags:
@@ -1148,6 +1218,16 @@ func (o *c19wObs) after(w *wWorld, st *wStep) *kit.Viol {
 		} else if g := o.groupByName(route); g != nil && g.state == c19wOK {
 			want = g.tags
 		}
+		if i := w.userIdx(types.ParseUserId(route)); strings.HasPrefix(route, "usr") && i >= 0 && o.staleMe[i] {
+			if want != nil && !c19wSameSet(c19wSet(lt.Tags), want) {
+				if v := o.rep(kit.V("cached-tags-differ:after-login-change", "loaded topic %s caches tags %q, stored %q: the account's login was changed by {acc} and the topic was not told (after %s %s)", route, lt.Tags, c19wList(want), st.Op.K, st.Req)); v != nil {
+					return v
+				}
+			} else {
+				delete(o.staleMe, i)
+			}
+			continue
+		}
 		if want != nil && !c19wSameSet(c19wSet(lt.Tags), want) {
 			return o.rep(kit.V("cached-tags-differ", "loaded topic %s caches tags %q, stored %q (after %s %s)", route, lt.Tags, c19wList(want), st.Op.K, st.Req))
 		}
@@ -1170,6 +1250,9 @@ func (o *c19wObs) after(w *wWorld, st *wStep) *kit.Viol {
 					continue // owner of an inactive topic: not judged
 				}
 				return o.rep(kit.V("tags-shown-to-unentitled", "{meta tags=%q} of %s sent to user %d who is not its owner / not attached", f.Meta.Tags, st.Route, st.User))
+			}
+			if strings.HasPrefix(st.Route, "usr") && o.staleMe[st.User] {
+				continue
 			}
 			if !c19wSameSet(c19wSet(f.Meta.Tags), want) || len(f.Meta.Tags) != len(want) {
 				return o.rep(kit.V("meta-tags-differ", "{meta tags=%q} of %s, stored tags are %q", f.Meta.Tags, st.Route, c19wList(want)))
